@@ -25,6 +25,7 @@ import (
 	"github.com/vipnode/vipnode/v2/jsonrpc2"
 	"github.com/vipnode/vipnode/v2/jsonrpc2/ws/gorilla"
 	"github.com/vipnode/vipnode/v2/pool"
+	"github.com/vipnode/vipnode/v2/pool/payment"
 	"verifharness/vlib"
 )
 
@@ -458,6 +459,17 @@ func TestC16(t *testing.T) {
 	ev.Note("declared_methods", methods)
 	ev.Note("candidate_names", len(names))
 
+	// somewhere else in this process the same receiver types have been registered without an
+	// allow-list (the in-memory pool of `vipnode agent :memory:` does that): registrations are
+	// per server, one must not leak into another
+	{
+		other := &jsonrpc2.Server{}
+		if st, cleanup, err := vlib.OpenStore(vlib.DriverMemory); err == nil {
+			other.Register("vipnode_", pool.New(st, nil)) // before anything else in this process registers these types
+			other.Register("pool_", &payment.PaymentService{NonceStore: st, AccountStore: st, BalanceStore: st})
+			defer cleanup()
+		}
+	}
 	// (c1) registry rules on toy receivers
 	toy := &ToyService{}
 	toyServer := &jsonrpc2.Server{}
